@@ -1799,11 +1799,23 @@ class ForAll(QuantifiedConditional):
 
     @cached_property
     def condition_unique_variable_ids(self) -> List[int]:
+        """
+        :return: The ids of the free variables of the condition other than the universal variable. A variable that is
+         quantified inside the condition (e.g., the witness of a nested exists) is not free: it has to be found anew for
+         every value of the universal variable.
+        """
+        quantified_inside_the_condition = {
+            v.id_
+            for node in self.condition._all_nodes_
+            if isinstance(node, QuantifiedConditional)
+            for v in node.left._unique_variables_
+        }
         return [
             v.id_
             for v in self.condition._unique_variables_.difference(
                 self.left._unique_variables_
             )
+            if v.id_ not in quantified_inside_the_condition
         ]
 
     def _evaluate__(
